@@ -296,6 +296,23 @@ pub fn run_child(ctx: &mut Ctx) {
                 if reupload && m.new_bytes != 0 && world_files.contains(&d.spec.data) { ctx.fail("C11", "repeat-upload-new-bytes", format!("re-upload of an unchanged file of {} bytes in a later session transferred {} new bytes (limits {maxb}/{maxc}, target {target})", d.spec.data.len(), m.new_bytes), replay.clone()); }
             }
             if metrics_str(&sum) != metrics_str(&smetrics) { ctx.fail("C14", "session-metrics-sum", format!("session metrics {} != sum over files {}", metrics_str(&smetrics), metrics_str(&sum)), replay.clone()); }
+            // C11: the shards this session moved into the local shard cache stay valid for the documented cache validity (a shard
+            // past its expiry is not loaded by a later process): expiry - creation = MDB_SHARD_LOCAL_CACHE_EXPIRATION_SECS
+            {
+                let want = *data::VERIF_MDB_SHARD_LOCAL_CACHE_EXPIRATION_SECS;
+                if let Ok(shards) = mdb_shard::MDBShardFile::load_all_valid(&config.shard_config.cache_directory) {
+                    for sf in shards {
+                        let md = &sf.shard.metadata;
+                        // (the export stamps now + validity; sessions of this world ran within the last minutes)
+                        let now = mdb_shard::shard_file::current_timestamp();
+                        let left = md.shard_key_expiry.saturating_sub(now);
+                        if md.shard_key_expiry != u64::MAX && (left > want || left + 3600 < want) {
+                            ctx.fail("C11", "cached-shard-validity", format!("a shard just moved into the local shard cache expires {left} s from now instead of the cache validity {want} s: later sessions (of another process) lose it early"), replay.clone());
+                            break;
+                        }
+                    }
+                }
+            }
             // C11: every put xorb has its CAS info registered
             let registered: Vec<String> = events.iter().chain(std::iter::empty()).filter(|e| e.0 == "session.add_cas_block").map(|e| e.1.split(' ').next().unwrap().to_string()).collect();
             let _ = registered;
